@@ -797,6 +797,17 @@ def execute(case):
     # O3
     if truth is not None and out[3] != truth:
         return _fail(res, "O3-precedence", "documentEncoding %r, precedence model says %r (rule %s)" % (out[3], truth, rule))
+    # O4 (only where O3 has no opinion because a declaration straddles the end of the prescan window): "the WHATWG prescan of
+    # the first 1024 bytes" - if no declaration that tree construction can see ends at or after byte 1024, then nothing beyond
+    # byte 1024 may influence the verdict: the same arguments with the document cut off after 1024 bytes give the same encoding
+    if truth is None and rule == "dontcare-straddle" and len(payload) > 1024 and not case.get("bom") and not ebom:
+        later_tree_visible = any(d["vis"] == "both" and d["effective"] and d["end"] >= 1024 and lookup_name(d["label"]) for d in decls)
+        if not later_tree_visible:
+            cut = _parse(payload[:1024], 10240, kwargs, None, case.get("container"), bool(case.get("scripting")))
+            stats["probes"]["straddle_checked_against_first_1024_bytes"] = stats["probes"].get("straddle_checked_against_first_1024_bytes", 0) + 1
+            if cut[0] == "ok" and cut[3] != out[3]:
+                return _fail(res, "O4-window", "documentEncoding %r, but %r for the first 1024 bytes of the same document alone: bytes "
+                             "beyond the prescan window decided (no declaration visible to tree construction ends there)" % (out[3], cut[3]))
     # O2
     if dec is not None and out[3] not in O2_SKIP:
         if dec[0] != "ok":
